@@ -12,6 +12,7 @@ Check @attribute_readings.
 Check @parsed_field_flags.
 Check @used_lifetimes_exact.
 Check @array_lens_exact.
+Check @param_used_exact.
 Print Assumptions parse_complete.
 Print Assumptions option_is_recognised.
 Print Assumptions print_parse_roundtrip.
@@ -22,3 +23,4 @@ Print Assumptions attribute_readings.
 Print Assumptions parsed_field_flags.
 Print Assumptions used_lifetimes_exact.
 Print Assumptions array_lens_exact.
+Print Assumptions param_used_exact.
